@@ -110,7 +110,11 @@ Lemma mfr_step_ref contents m fs op :
   o = o' /\ minv contents m' (rest fs') /\ rf_data fs' = concat contents.
 Proof.
   intros [I1 [I2 I3]] D P.
-  destruct op as [[[|amt]|]|]; [discriminate| | |].
+  destruct op as [[[|amt]|]|].
+  - (* read(0): nothing, nothing moves *)
+    cbn [mfr_step mref_step ref_step mfr_loop Nat.ltb Nat.leb andb firstn length].
+    split; [reflexivity|]. split; [|exact D].
+    rewrite rest_advance. cbn [skipn]. repeat split; assumption.
   - (* sized read *)
     cbn [mfr_step mref_step ref_step].
     destruct (Nat.le_gt_cases (m_index m) (length (m_files m))) as [Hi|Hi].
